@@ -1,46 +1,8 @@
-import MoneroModel.Basic
-/-! C04_alloc_bound: decoders annotated with an allocation ledger, and closure of the
-    bound `peak ≤ D·CAP + B·(bytes looked at)` under sequencing and capped pre-allocating vectors. Core Lean. -/
+import MoneroModel.Model.Ledger
+/-! C04 allocation ledger (combinators of Model/Ledger.lean): closure of the bound `peak ≤ D·CAP + B·(bytes looked at)` under
+    sequencing and capped pre-allocating vectors. Core Lean. -/
 namespace Ledger
 open Monero
-
-/-- result of an instrumented decode: value and rest (or failure), peak outstanding heap during the
-    decode, heap still owned by the returned value (`live`, 0 on failure: everything is dropped) -/
-structure Res (α : Type) where
-  val : Option (α × Bytes)
-  peak : Nat
-  live : Nat
-
-abbrev RDec (α : Type) := Bytes → Res α
-
-/-- bytes the decoder has looked at: consumed on success, at most the whole input on failure -/
-def used {α} (b : Bytes) (r : Res α) : Nat :=
-  match r.val with | some (_, rest) => b.length - rest.length | none => b.length
-
-def rpure {α} (x : α) : RDec α := fun b => ⟨some (x, b), 0, 0⟩
-def rfail {α} : RDec α := fun _ => ⟨none, 0, 0⟩
-def ru8 : RDec UInt8 | [] => ⟨none, 0, 0⟩ | x :: r => ⟨some (x, r), 0, 0⟩
-
-/-- sequencing: the first value stays alive while the second decoder runs -/
-def rbind {α β} (d : RDec α) (f : α → RDec β) : RDec β := fun b =>
-  match d b with
-  | ⟨none, p, _⟩ => ⟨none, p, 0⟩
-  | ⟨some (x, r), p1, l1⟩ =>
-    match f x r with
-    | ⟨none, p2, _⟩ => ⟨none, max p1 (l1 + p2), 0⟩
-    | ⟨some (y, r'), p2, l2⟩ => ⟨some (y, r'), max p1 (l1 + p2), l1 + l2⟩
-
-/-- n elements one after the other, earlier ones stay alive -/
-def rrep {α} (d : RDec α) : Nat → RDec (List α)
-  | 0 => rpure []
-  | n+1 => rbind d fun x => rbind (rrep d n) fun xs => rpure (x :: xs)
-
-/-- `Vec::with_capacity(n)` after the cap check, then n elements -/
-def rvecN {α} (CAP sz : Nat) (d : RDec α) (n : Nat) : RDec (List α) := fun b =>
-  if n * sz > CAP then ⟨none, 0, 0⟩ else
-  match rrep d n b with
-  | ⟨none, p, _⟩ => ⟨none, n * sz + p, 0⟩
-  | ⟨some v, p, l⟩ => ⟨some v, n * sz + p, n * sz + l⟩
 
 /-- the invariant: rest is a suffix, peak and live are bounded -/
 structure Bounded {α} (A B : Nat) (d : RDec α) : Prop where
